@@ -277,18 +277,7 @@ int main(int argc, char **argv)
 {
     if (argc < 4)
         return 2;
-    for (auto &t : vh::read_cases(argv[1]))
-    {
-        if (t[0] == "X")
-        {
-            int d = atoi(t[1].c_str());
-            for (size_t i = 2; i < t.size(); i++)
-                X[d].push_back(vh::parse_u64(t[i]));
-        }
-        else if (t[0] == "M")
-            for (size_t i = 2; i < t.size(); i++)
-                Mc.push_back(vh::parse_u64(t[i]));
-    }
+    load_inputs(argv[1]);
     auto cases = vh::read_cases(argv[2]);
     {
         FILE *f = fopen(argv[3], "w");
